@@ -120,16 +120,41 @@ Theorem C03_reject_stops_reading : forall cf s pre e post,
 Proof. intros cf s. apply run_conn_terminal_last. Qed.
 Print Assumptions C03_reject_stops_reading.
 
-(* --- the full boundary statement is REFUTED by the faithful model (known finding C03-vt-ff-as-ows, confirmed on the
-       running proxy by corpus/C03/known.jsonl): `Transfer-Encoding: chunked<VT>` is honoured as chunked in both parser
-       modes; the embedded request starts inside the bytes that the message's Content-Length declares as its body --- *)
-Theorem C03_vt_after_chunked_refuted : forall relaxed, exists f1 f2,
-  run_stream (sm_default_cfg relaxed) w_stream = [EForward 0 f1; EForward (lenN w_head + 5) f2; EClose] /\
-  fw_chunked f1 = true /\ fw_body f1 = [] /\ fw_uri f2 = w_inner_uri /\
-  lenN w_body = 61 /\ Forall line_ok [w_l1; w_host; w_te_line; w_cl_line] /\
+(* --- the former finding C03-vt-ff-as-ows is REPAIRED in /repo (cc868a1: only SP / HTAB are trimmed around
+       Content-Length and Transfer-Encoding values, the Content-Length interpreter accepts only SP / HTAB around the
+       digits in every mode).  Its witnesses, as theorems about the model of /repo HEAD and as regression scenarios
+       replayed against the running proxy (corpus/C03/regress.jsonl): `Transfer-Encoding: chunked<VT>` with a
+       Content-Length covering an embedded request is answered 501 in both parser modes and nothing after it is read;
+       `Content-Length: <VT>5` and `Content-Length: 5<FF>` are answered 400 --- *)
+Theorem C03_vt_after_chunked_rejected : forall relaxed,
+  run_stream (sm_default_cfg relaxed) w_stream = [EReject 0 sm_sc_not_implemented] /\
+  Forall line_ok [w_l1; w_host; w_te_line; w_cl_line] /\
   w_te_line = ClenModel.name_transfer_encoding ++ [58; 32] ++ ClenModel.word_chunked ++ [11].
-Proof. exact vt_after_chunked_refuted. Qed.
-Print Assumptions C03_vt_after_chunked_refuted.
+Proof. exact vt_after_chunked_rejected. Qed.
+Print Assumptions C03_vt_after_chunked_rejected.
+
+Theorem C03_vt_content_length_rejected : forall relaxed,
+  run_stream (sm_default_cfg relaxed) w_cl_vt_stream = [EReject 0 sm_sc_bad_request] /\
+  run_stream (sm_default_cfg relaxed) w_cl_ff_stream = [EReject 0 sm_sc_bad_request].
+Proof. exact vt_content_length_rejected. Qed.
+Print Assumptions C03_vt_content_length_rejected.
+
+(* --- what the faithful model of /repo HEAD still REFUTES of "forwarded messages are messages a strict reader delimits"
+       (known findings, confirmed on the running proxy by corpus/C03/known.jsonl): with relaxed_header_parser on, VT is
+       read as bad white space inside a chunk extension (C03-chunk-line-bws) and next to an element of a Content-Length
+       list (C03-cl-list-vt-ff); with it off both streams are refused.  In both cases the message still ends where its
+       CRLF-delimited lines / its declared length say: no byte crosses a message boundary --- *)
+Theorem C03_vt_in_chunk_ext_refuted : exists f,
+  run_stream (sm_default_cfg true) w_chunk_vt_stream = [EForward 0 f] /\ fw_chunked f = true /\ fw_body f = w_hello /\
+  run_stream (sm_default_cfg false) w_chunk_vt_stream = [EReset 0].
+Proof. exact vt_in_chunk_ext_refuted. Qed.
+Print Assumptions C03_vt_in_chunk_ext_refuted.
+
+Theorem C03_vt_in_content_length_list_refuted : exists f,
+  run_stream (sm_default_cfg true) w_cl_list_vt_stream = [EForward 0 f] /\ fw_body f = w_hello /\ fw_cl f = [[53]] /\
+  run_stream (sm_default_cfg false) w_cl_list_vt_stream = [EReject 0 sm_sc_bad_request].
+Proof. exact vt_in_content_length_list_refuted. Qed.
+Print Assumptions C03_vt_in_content_length_list_refuted.
 
 (* --- non-vacuity --- *)
 (* "Host: h" is a head line; a line starting with CR or containing LF is not *)
